@@ -73,6 +73,14 @@ def e1_configs(tier):
     # three live level-1 parents plus the root (every bit position of the root's readiness mask in use)
     three = filter_from([l1_options(L1[0])[16], l1_options(L1[1])[3], l1_options(L1[2])[9]])
     cfgs.append(W(kind="filtered", depth=2, W=2, accepted=three))
+    # a history in one process: a walk over a sparse filtered pyramid, then a deeper walk whose parent
+    # (1,0,0) has live children where the first walk had filtered-out leaves
+    cfgs.append(
+        stages.WalkTwice(
+            kind="filtered", depth=3, W=2, accepted=[(1, 0, 0), (2, 0, 0), (3, 0, 0), (2, 1, 1), (3, 2, 2)],
+            first_depth=2, first_accepted=[(1, 0, 0), (2, 0, 0)],
+        )
+    )
     if tier == "thorough":
         cfgs += [
             W(kind="generic", depth=2, W=2),
